@@ -57,6 +57,8 @@ def _bind_lambda(eng, lam, st, kinds=None):
     saved = {}
     for n in names:
         kind = 'int'
+        if n.startswith('l_'):
+            kind = ('list', 'int')      # bound variable ranging over (references to) integer lists
         if n.startswith('x_') or n.startswith('r_'):
             kind = 'real'
         c = z3.Const(fresh_name(n), sort_of(kind))
@@ -713,6 +715,10 @@ def coerce(eng, st, v, kind, what):
     if is_ref_kind(kind) and is_ref_kind(v.k) and kind[0] == v.k[0]:
         if kind[0] == 'list' and elem_tag(kind[1]) == elem_tag(v.k[1]):
             return Val(kind, v.t)
+        if kind[0] == 'list' and v.k == ('list', 'int') and v.t is not None:
+            n = z3.simplify(st.heap.rd('len', v.t))
+            if z3.is_int_value(n) and n.as_long() == 0:
+                return Val(kind, v.t)       # the empty list literal [] has no element kind of its own
         if kind[0] == 'arr' and kind[1] == v.k[1] and elem_tag(kind[2]) == elem_tag(v.k[2]):
             return Val(kind, v.t)
         if kind[0] == 'opaque':
@@ -844,6 +850,22 @@ def havoc_target(eng, st, tgt):
             st.heap.set('el:int', ne)
         else:
             raise ContractError("cannot havoc %r" % (k,))
+    elif tgt[0] == 'eachlist':
+        # contents (length and elements) of every list held in a list of lists
+        lst = tgt[1]
+        ek = lst.k[1][1]
+        n = eng.list_len(st, lst)
+        la = eng.list_arr(st, lst)
+        r = z3.Int(fresh_name('r'))
+        w = z3.Function(fresh_name('eachlist_w'), I, I)
+        hit = z3.And(0 <= w(r), w(r) < n, z3.Select(la, w(r)) == r)
+        for key in ('len', 'el:' + elem_tag(ek)):
+            old = st.heap.get(key)
+            new = z3.Const(fresh_name('h_' + key.replace(':', '_')), old.sort())
+            st.assume(z3.ForAll([r], z3.Or(hit, z3.Select(new, r) == z3.Select(old, r)), patterns=[z3.Select(new, r)]))
+            if key == 'len':
+                st.assume(z3.ForAll([r], z3.Select(new, r) >= 0, patterns=[z3.Select(new, r)]))
+            st.heap.set(key, new)
     elif tgt[0] == 'each':
         # field `f` of every object in a list: fresh field map that agrees with the old one off the list
         lst, cls, f = tgt[1], tgt[2], tgt[3]
@@ -873,6 +895,13 @@ def eval_assign_targets(eng, clauses, env, st):
             if not (isinstance(lst.k, tuple) and lst.k[0] == 'list' and isinstance(lst.k[1], tuple) and lst.k[1][0] == 'obj'):
                 raise ContractError("assigns %r: not a list of objects" % src)
             out.append(('each', lst, lst.k[1][1], mm.group(2)))
+            continue
+        mm2 = re.match(r'^(.*)\[\*\]$', src.strip())
+        if mm2:
+            lst = eval_clause(eng, mm2.group(1), env, st)
+            if not (isinstance(lst.k, tuple) and lst.k[0] == 'list' and isinstance(lst.k[1], tuple) and lst.k[1][0] == 'list'):
+                raise ContractError("assigns %r: not a list of lists" % src)
+            out.append(('eachlist', lst))
             continue
         if src.startswith('ref:'):      # the object a field refers to, not the field itself
             v = eval_clause(eng, src[4:], env, st)
@@ -929,7 +958,11 @@ def apply_contract(eng, c, mod, fdef, args, kwargs, st, node):
         eng.assumed.add("assumed contract: " + c.qualname)
     for label, clause in c.labelled(c.requires, 'pre'):
         t = eval_bool(eng, clause, env, st)
-        eng.oblige(st, "pre@call:%s:%s@L%d" % (short, label, line), 'pre@call', t, node)
+        if label.startswith('completes:'):
+            # the callee itself stops the run (assert) when this fails: outside "runs that complete"
+            eng.assumed.add("run-completes assumption at call of %s: %s" % (c.qualname, label))
+        else:
+            eng.oblige(st, "pre@call:%s:%s@L%d" % (short, label, line), 'pre@call', t, node)
         st.assume(t)
     for exc, cond in c.raises.items():
         if cond is None:
@@ -972,6 +1005,9 @@ def apply_contract(eng, c, mod, fdef, args, kwargs, st, node):
     for label, clause in c.labelled(c.ensures, 'post'):
         t = eval_bool(eng, clause, env2, st, old=(env, old_heap))
         st.assume(t)
+    # ghost flags of the caller that this call sets (resource protocol, e.g. a pool has been created)
+    for gname, gclause in (c.ghost.get('sets') or {}).items():
+        st.env[gname] = eval_clause(eng, gclause, env2, st, old=(env, old_heap))
     return result
 
 
